@@ -1,4 +1,5 @@
 import PySMT.Spec.AssertStack
+import PySMT.Gen.PendingPop
 /-!
 # Model of `IncrementalTrackingSolver` and of the `pending_pop` protocol (pysmt/solvers/solver.py, decorators.py)
 
@@ -94,25 +95,25 @@ def popCore (cfg : Config) (n : Nat) (st : St) : Except Err St :=
 def clear (cfg : Config) (st : St) : Except Err St :=
   if st.pending then popCore cfg 1 { st with pending := false } else .ok st
 
-def guard (cfg : Config) (decorated : Bool) (st : St) : Except Err St :=
+def enter (cfg : Config) (decorated : Bool) (st : St) : Except Err St :=
   if decorated then clear cfg st else .ok st
 
 def add (cfg : Config) (f : Nat) (st : St) : Except Err St :=
-  seq (guard cfg cfg.dAdd st) fun st =>
+  seq (enter cfg cfg.dAdd st) fun st =>
     .ok { st with native := if cfg.native then nativeAdd f st.native else st.native
                   tracked := if cfg.tracking then st.tracked ++ [f] else st.tracked }
 
 def push (cfg : Config) (n : Nat) (st : St) : Except Err St :=
-  seq (guard cfg cfg.dPush st) fun st =>
+  seq (enter cfg cfg.dPush st) fun st =>
     .ok { st with native := if cfg.native then List.replicate n [] ++ st.native else st.native
                   points := if cfg.tracking then List.replicate n st.tracked.length ++ st.points
                             else st.points }
 
 def pop (cfg : Config) (n : Nat) (st : St) : Except Err St :=
-  seq (guard cfg cfg.dPop st) fun st => popCore cfg n st
+  seq (enter cfg cfg.dPop st) fun st => popCore cfg n st
 
 def reset (cfg : Config) (st : St) : Except Err St :=
-  seq (guard cfg cfg.dReset st) fun st =>
+  seq (enter cfg cfg.dReset st) fun st =>
     .ok { st with native := if cfg.native then [[]] else st.native
                   tracked := if cfg.tracking then [] else st.tracked }
 
@@ -122,7 +123,7 @@ def seen (cfg : Config) (st : St) : List Nat :=
   if cfg.native then nativeLive st.native else st.tracked
 
 def solve (cfg : Config) (assumption : Option Nat) (st : St) : Except Err St :=
-  seq (guard cfg cfg.dSolve st) fun st =>
+  seq (enter cfg cfg.dSolve st) fun st =>
     .ok { st with checks := (seen cfg st ++ assumption.toList) :: st.checks }
 
 /-- `Solver.is_sat` -/
@@ -139,7 +140,7 @@ def isSat (cfg : Config) (f : Nat) (st : St) : Except Err St :=
 def negOf (f : Nat) : Nat := f + 1
 
 /-- reading the `assertions` property -/
-def read (cfg : Config) (st : St) : Except Err St := guard cfg cfg.dRead st
+def read (cfg : Config) (st : St) : Except Err St := enter cfg cfg.dRead st
 
 def step (cfg : Config) (st : St) : Op → Except Err St
   | .assert f => add cfg f st
@@ -176,5 +177,82 @@ def wouldCheck (cfg : Config) (st : St) : Except Err (List Nat) :=
     truncation harmless. -/
 def Covers (cfg : Config) : Bool :=
   cfg.dAdd && cfg.dPush && cfg.dPop && cfg.dSolve && (cfg.dReset || !cfg.native) && (cfg.dRead || !cfg.tracking)
+
+/-! ### Reading the regenerated table `Gen/PendingPop.lean`
+
+Python attribute lookup: the first class of the linearisation (`mro`) that defines the name. -/
+
+open PySMT.Gen.PendingPop in
+def findClass (tbl : List ClassInfo) (n : String) : Option ClassInfo := tbl.find? (·.name == n)
+
+open PySMT.Gen.PendingPop in
+def resolveIn (tbl : List ClassInfo) (meth : String) : List String → Option ClassInfo
+  | [] => none
+  | m :: ms => match findClass tbl m with
+    | some c => if c.defines.contains meth then some c else resolveIn tbl meth ms
+    | none => resolveIn tbl meth ms
+
+def solverName : String := "pysmt.solvers.solver.Solver"
+def itsName : String := "pysmt.solvers.solver.IncrementalTrackingSolver"
+
+section
+open PySMT.Gen.PendingPop
+variable (tbl : List ClassInfo) (c : ClassInfo)
+
+/-- a decorated function is entered before the native solver is touched: the public method is decorated, or it
+    is `IncrementalTrackingSolver`'s (which calls the proxy first) and the proxy is decorated -/
+def entryDecorated (pub proxy : String) : Bool :=
+  match resolveIn tbl pub c.mro with
+  | none => false
+  | some o => o.decorated.contains pub ||
+      (o.name == itsName && match resolveIn tbl proxy c.mro with
+        | some p => p.decorated.contains proxy
+        | none => false)
+
+def entryImplemented (pub proxy : String) : Bool :=
+  match resolveIn tbl pub c.mro with
+  | none => false
+  | some o => !o.abstract.contains pub &&
+      (o.name != itsName || match resolveIn tbl proxy c.mro with
+        | some p => !p.abstract.contains proxy
+        | none => false)
+
+def proxyTrivial (proxy : String) : Bool :=
+  match resolveIn tbl proxy c.mro with
+  | some p => p.trivial.contains proxy
+  | none => false
+
+def isTracking : Bool := c.mro.contains itsName
+
+def configOf : Config where
+  dAdd := entryDecorated tbl c "add_assertion" "_add_assertion"
+  dPush := entryDecorated tbl c "push" "_push"
+  dPop := entryDecorated tbl c "pop" "_pop"
+  dReset := entryDecorated tbl c "reset_assertions" "_reset_assertions"
+  dSolve := entryDecorated tbl c "solve" "_solve"
+  dRead := match resolveIn tbl "assertions" c.mro with
+    | some o => o.decorated.contains "assertions"
+    | none => false
+  tracking := isTracking c
+  native := !(isTracking c && proxyTrivial tbl c "_add_assertion" && proxyTrivial tbl c "_push" &&
+              proxyTrivial tbl c "_pop" && proxyTrivial tbl c "_reset_assertions")
+  pushSupported := entryImplemented tbl c "push" "_push"
+
+/-- a class one can instantiate and solve with -/
+def isConcrete : Bool := c.mro.contains solverName && entryImplemented tbl c "solve" "_solve"
+
+/-- the class runs its one-shot queries through `Solver.is_sat` (and therefore relies on `pending_pop`) -/
+def usesBaseIsSat : Bool :=
+  match resolveIn tbl "is_sat" c.mro with
+  | some o => o.name == solverName
+  | none => false
+
+/-- the other state-changing methods (`all_sat`, `declare_variable`), where implemented, are decorated too -/
+def extrasCovered : Bool :=
+  ["all_sat", "declare_variable"].all fun m =>
+    match resolveIn tbl m c.mro with
+    | some o => o.abstract.contains m || o.trivial.contains m || o.decorated.contains m
+    | none => true
+end
 
 end PySMT.SolverTrack
